@@ -80,6 +80,29 @@ func check(c tcase) *mc.Failure {
 			if m, _ := maskOf(t); m != tm {
 				return mc.Failf(0, "a predicate modified its argument")
 			}
+		case "self":
+			// the same set object as receiver and argument(s)
+			s, sm := operand(c.Ops[0])
+			if !s.Equals(s) || !s.IsSubset(s) || s.Intersects(s) != (sm != 0) {
+				return mc.Failf(0, "operand %d against itself: Equals=%v IsSubset=%v Intersects=%v", c.Ops[0], s.Equals(s), s.IsSubset(s), s.Intersects(s))
+			}
+			in := mapset.Intersect(s, s, s)
+			if m, ok := maskOf(in); in == nil || !ok || m != sm {
+				return mc.Failf(0, "Intersect(s, s, s) of operand %d = %v", c.Ops[0], in)
+			}
+			in[7] = struct{}{}
+			if s.Has(7) {
+				return mc.Failf(0, "Intersect(s, s, s) aliases s")
+			}
+			u := s.Clone()
+			u.AddAll(u)
+			if m, ok := maskOf(u); !ok || m != sm {
+				return mc.Failf(0, "s.AddAll(s) on operand %d leaves %v", c.Ops[0], u)
+			}
+			u.RemoveAll(u)
+			if u.Len() != 0 {
+				return mc.Failf(0, "s.RemoveAll(s) on operand %d leaves %v", c.Ops[0], u)
+			}
 		case "intersect":
 			var ss []mapset.Set[int]
 			want := 1<<U - 1
@@ -503,6 +526,9 @@ func main() {
 				}
 				for _, ops := range mc.AllSeqs(nOperands, 3) {
 					cases = append(cases, tcase{Fn: "intersect", Ops: ops})
+				}
+				for a := 0; a < nOperands; a++ {
+					cases = append(cases, tcase{Fn: "self", Ops: []int{a}})
 				}
 				// four and five operands of every size over a universe of four
 				for _, ops := range mc.AllSeqs(16, 4) {
